@@ -9,7 +9,7 @@ From Verif Require Import Proofs.QueryProofs Proofs.HeaderProofs Proofs.Pipeline
 From Verif Require Proofs.KeyProofs Crypto.Sha256.
 From Coq Require Import String List Bool Arith Lia.
 From Verif Require Import Base.Bytes Base.Hex Crypto.Hmac Generated.SrcConsts Model.Errors Model.Validate Model.Leakage Spec.Audit.
-From Verif Require Import Proofs.SelectionProofs Proofs.StaticProofs.
+From Verif Require Import Proofs.SelectionProofs Proofs.StaticC17.
 Local Open Scope string_scope.
 
 Theorem C17_calls_independent_of_key :
@@ -50,23 +50,23 @@ Print Assumptions C17_key_enters_only_the_comparison.
 
 Theorem C17_log_sites :
   forallb log_site_clean src_log_sites = true.
-Proof. exact StaticProofs.C17_log_sites. Qed.
+Proof. exact StaticC17.C17_log_sites. Qed.
 Print Assumptions C17_log_sites.
 
 Theorem C17_error_sites :
   forallb error_site_clean src_error_sites = true.
-Proof. exact StaticProofs.C17_error_sites. Qed.
+Proof. exact StaticC17.C17_error_sites. Qed.
 Print Assumptions C17_error_sites.
 
 Theorem C17_renderings_constant :
   forallb rendering_constant src_key_renderings = true
   /\ forallb (fun ty => has_rendering ty "Debug" && has_rendering ty "Display") key_types = true
   /\ forallb (fun d => negb (mem_str (snd d) ["Debug"; "Display"])) src_key_derives = true.
-Proof. exact StaticProofs.C17_renderings_constant. Qed.
+Proof. exact StaticC17.C17_renderings_constant. Qed.
 Print Assumptions C17_renderings_constant.
 
 Theorem C17_expected_signature_only_at_trace :
   forallb (fun s => let '(_, lvl, ids) := s in
                     negb (mem_str "expected_signature" ids) || String.eqb lvl "trace") src_log_sites = true.
-Proof. exact StaticProofs.C17_expected_signature_only_at_trace. Qed.
+Proof. exact StaticC17.C17_expected_signature_only_at_trace. Qed.
 Print Assumptions C17_expected_signature_only_at_trace.
